@@ -36,7 +36,7 @@ meta = dict(property=pid, name=name, repo_head=run('git -C /repo rev-parse HEAD'
 rc, out = run('/venv/bin/python %s' % (src / 'demo.py'), cwd=T)
 meta['demo_clean_rc'] = rc
 meta['ran'].append('demo on clean tree: rc=%d' % rc)
-rc, out = run('git -C ' + T + ' apply %s' % (src / 'patch.diff'))
+rc, out = run('git -C ' + T + ' apply -3 %s' % (src / 'patch.diff'))
 assert rc == 0, out
 try:
     rc, out = run('/venv/bin/python %s' % (src / 'demo.py'), cwd=T)
